@@ -32,6 +32,8 @@ import (
 	"fmt"
 	"math/rand"
 	"net"
+	"os"
+	"runtime"
 	"strings"
 	"sync"
 	"testing"
@@ -39,9 +41,76 @@ import (
 	"time"
 
 	vh "github.com/apernet/hysteria/core/v2/verifhlib"
+	"github.com/apernet/hysteria/extras/v2/utils"
 )
 
+// memGuard aborts the test binary when the heap explodes (a runaway loop in the code under
+// test must not take the machine down).  Started outside the bubble: real time.
+func memGuard(limit uint64) {
+	go func() {
+		var ms runtime.MemStats
+		for {
+			time.Sleep(50 * time.Millisecond)
+			runtime.ReadMemStats(&ms)
+			if ms.HeapAlloc > limit {
+				fmt.Fprintln(os.Stderr, "verif: heap limit exceeded (runaway loop in the code under test?), aborting")
+				os.Exit(3)
+			}
+		}
+	}()
+}
+
+// portsTerminates probes, in real time and before any virtual-time bubble exists, that
+// enumerating a union that contains port 65535 returns (a uint16 loop counter never does).
+// A runaway is recognised by its allocation (hundreds of MB), not by elapsed time.
+func portsTerminates() bool {
+	done := make(chan struct{})
+	go func() {
+		defer func() { recover() }()
+		_ = utils.PortUnion{{Start: 65534, End: 65535}}.Ports()
+		close(done)
+	}()
+	select {
+	case <-done:
+		return true
+	case <-time.After(20 * time.Millisecond):
+	}
+	var ms runtime.MemStats
+	runtime.ReadMemStats(&ms)
+	base := ms.TotalAlloc
+	for {
+		select {
+		case <-done:
+			return true
+		case <-time.After(5 * time.Millisecond):
+			runtime.ReadMemStats(&ms)
+			if ms.TotalAlloc-base > 256<<20 {
+				return false
+			}
+		}
+	}
+}
+
+// hangComp reports the failed probe through the usual files; nothing else can be run safely.
+type hangComp struct{}
+
+func (hangComp) Gen(r *vh.RNG, n int, emit func(op string, tags ...string)) {
+	emit("reset 1 "+vh.Hex([]byte("65534-65535"))+" 0 0 1", "preflight")
+}
+
+func (hangComp) Run(op string) vh.Result {
+	return vh.Result{Out: "hang", Oracle: []string{"PortUnion{65534-65535}.Ports() does not return (it keeps allocating): the hop address list cannot be built (loop counter wraps at 65535?)"}}
+}
+
 func TestVerifC19Hop(t *testing.T) {
+	if os.Getenv("VERIF_OUT") == "" {
+		t.Skip("VERIF_OUT not set")
+	}
+	memGuard(6 << 30)
+	if !portsTerminates() {
+		vh.RunFromEnv(hangComp{})
+		return // leave at once: the probe goroutine is still allocating
+	}
 	synctest.Test(t, func(t *testing.T) {
 		c := &hopComp{}
 		ran := vh.RunFromEnv(c)
